@@ -528,3 +528,97 @@ func runC06(rc *RunCtx) {
 	simrt.Quiesce()
 	rc.Phase = "done"
 }
+
+// c06c: "replays" that arrive at the same time as their original. Two to four
+// connections present the very same valid stream at once (an on-path observer
+// duplicating a client's first segment), the replay history is on. At most one of
+// them is the original; every other one is a replay: the server writes nothing
+// to it, does not reset it, and keeps it until the handshake timeout.
+func init() {
+	Register(&Scenario{Name: "c06c", Prop: "C06", MaxSteps: 200000, Run: runC06c})
+}
+
+func runC06c(rc *RunCtx) {
+	G := rc.G
+	w := simnet.NewWorld()
+	keys := uniqueCrypto(genKeys(G, 1+G.Draw(3), ""))
+	T := []time.Duration{200 * time.Millisecond, time.Second}[G.Draw(2)]
+	srv := startTCPServer(rc, w, tcpServerOpts{Keys: keys, Replay: 100, Timeout: T, Debug: rc.F.Draw(3) == 1})
+	tgtIP := net.IPv4(93, 184, 216, 34).To4()
+	startTarget(w, tgtIP, 8000, func(tc *targetConn) {
+		tc.C.Write([]byte("answer"))
+		readAll(tc.C)
+		tc.C.Close()
+	})
+	key := keys[G.Draw(len(keys))]
+	enc := newEncoder(key)
+	enc.Lazy(socksAddr(fmt.Sprintf("%s:8000", tgtIP)))
+	wire := enc.Chunk(payload(G, 1+G.Draw(100)))
+	n := 2 + G.Draw(3)
+	type copyT struct {
+		c         *simnet.TCPConn
+		connectAt time.Duration
+		done      flag
+	}
+	cs := make([]*copyT, n)
+	for i := range cs {
+		i := i
+		c := &copyT{}
+		cs[i] = c
+		j := jitter(G)
+		simrt.GoNamed(fmt.Sprintf("c06c-copy-%d", i), func() {
+			defer c.done.Set()
+			j()
+			cc, err := srv.connect(net.IPv4(198, 18, 6, byte(1+i)).To4(), 26000+i)
+			if err != nil {
+				return
+			}
+			c.c, c.connectAt = cc, simrt.Elapsed()
+			writeSegmented(G, cc, wire, 3)
+			var end flag
+			simrt.GoNamed("c06c-reader", func() { readAll(cc); end.Set() })
+			end.WaitFor(4 * T)
+			cc.CloseWrite()
+			end.Wait()
+			cc.Close()
+		})
+	}
+	for _, c := range cs {
+		c.done.Wait()
+	}
+	simrt.Quiesce()
+	rc.Nontrivial = true
+	served := 0
+	for _, d := range w.Dials {
+		if d.Port == 8000 {
+			served++
+		}
+	}
+	answered := 0
+	for _, c := range cs {
+		if c.c != nil && len(c.c.Peer().Wrote) > 0 {
+			answered++
+		}
+	}
+	if served > 1 || answered > 1 {
+		rc.Failf("concurrent-replay-served", "%d connections presented the same stream at the same time (replay history on): the target was contacted %d times and %d of them got an answer; all but one are replays, to which the server writes nothing", n, served, answered)
+	}
+	skew := simrt.Skew()
+	for i, c := range cs {
+		if c.c == nil || len(c.c.Peer().Wrote) > 0 {
+			continue
+		}
+		if served == 0 && freshRefusalExcused(rc, key, wire) {
+			continue
+		}
+		if _, rst := c.c.Has("rst-recv"); rst {
+			rc.Failf("concurrent-replay-reset", "copy %d of a stream presented %d times at once was reset instead of being absorbed", i, n)
+		}
+		if fin, ok := c.c.Has("fin-recv"); ok && fin+skew+T/300 < c.connectAt+T {
+			rc.Failf("concurrent-replay-closed-early", "copy %d of a stream presented %d times at once was closed by the server at %v, %v after it connected, before the handshake timeout %v", i, n, fin, fin-c.connectAt, T)
+		}
+	}
+	srv.Stop()
+	simrt.Quiesce()
+	rc.Phase = "done"
+}
